@@ -271,9 +271,22 @@ def rule_reach_whole_dag(ctx: Ctx) -> None:
     cs = [c for c in calls_in(fn) if call_name(c) in ("nx.ancestors", "nx.descendants")]
     kinds = {call_name(c) for c in cs}
     if kinds != {"nx.ancestors", "nx.descendants"}:
-        ctx.fail("reach.whole-dag", m, fn, "find_incompatible_edges no longer computes both nx.ancestors and nx.descendants of the chosen edge's end nodes",
-                 func="CircuitDAG.find_incompatible_edges", construct="find_incompatible_edges: reachability sets")
-        return
+        # a hand-written traversal: it must follow every edge; one that tests an edge attribute before following an edge walks a sub-graph
+        cls_ = repo.cls("CircuitDAG", DAG)
+        helpers_ = [cls_.methods()[call_attr(c)] for c in calls_in(fn) if (call_name(c) or "").startswith("self.") and call_attr(c) in cls_.methods()]
+        for h in helpers_ + [fn]:
+            for i_ in [x for x in ast.walk(h) if isinstance(x, ast.If)]:
+                t = norm(i_.test)
+                walks = any(isinstance(y, ast.Call) and call_attr(y) in ("append", "add", "extend", "update") for y in ast.walk(i_))
+                if walks and ("reg_type" in t or "'c'" in t or "\"c\"" in t or "[2]" in t):
+                    ctx.fail("reach.whole-dag", m, i_,
+                             f"find_incompatible_edges collects ancestors / descendants with a traversal that follows an edge only under `{short(i_.test)}`: "
+                             f"orderings that run through the edges left out (a classical register shared by two measurements) are missed, and a two-qubit "
+                             f"operation inserted on a pair reported compatible closes a cycle", func="CircuitDAG.find_incompatible_edges",
+                             construct="find_incompatible_edges: traversal restricted to a subset of edges")
+                    return
+        raise AnalysisError("find_incompatible_edges: reachability is not computed with nx.ancestors / nx.descendants and the replacement could not be "
+                            "classified (undecided)")
     for c in cs:
         g = norm(c.args[0]) if c.args else "?"
         if g == "self.dag":
@@ -286,7 +299,49 @@ def rule_reach_whole_dag(ctx: Ctx) -> None:
                      construct="find_incompatible_edges: reachability on a partial graph")
 
 
+def rule_reg_ensure(ctx: Ctx) -> None:
+    """reg.ensure: CircuitDAG.add makes sure that *every* quantum register the operation acts on exists before the operation is wired in:
+    `_add_reg_if_absent` runs for each of them, unconditionally (the method itself does nothing for a register that exists).  A guard
+    derived from one register (the highest index, say) skips the creation of another register of the other type: the operation is then
+    wired to one wire only and the register counts are off."""
+    from .. import flow
+    repo = ctx.repo
+    m = repo.module(DAG)
+    fn = repo.anchor(DAG, "CircuitDAG.add")
+    ctx.touch(m, fn)
+    ens = [c for c in calls_in(fn) if call_attr(c) == "_add_reg_if_absent"]
+    wire = [c for c in calls_in(fn) if call_attr(c) == "_add"]
+    if not ens or not wire:
+        raise AnalysisError("CircuitDAG.add: _add_reg_if_absent / _add not found")
+    bad = None
+    for e_ in ens:
+        loop = next((a for a in _ancs(e_) if isinstance(a, ast.For)), None)
+        guard = next((a for a in _ancs(e_) if isinstance(a, (ast.If, ast.IfExp, ast.Try, ast.While))), None)
+        every = flow.must_pass(fn.body, lambda nd, e_=e_: any(x is e_ for x in ast.walk(nd)) or (loop is not None and nd is loop.iter))
+        all_regs = loop is not None and "len(" in norm(loop.iter)
+        if guard is not None or not every or not all_regs:
+            bad = (e_, guard)
+            break
+    if bad is None:
+        ctx.ok("reg.ensure", m, ens[0], what="every register of the operation is ensured before wiring")
+    else:
+        e_, guard = bad
+        ctx.fail("reg.ensure", m, guard.test if guard is not None and hasattr(guard, "test") else e_,
+                 "CircuitDAG.add creates the missing registers of an operation only " + (f"under `{short(guard.test)}`" if guard is not None and hasattr(guard, "test") else "on some paths") +
+                 ": _add_reg_if_absent is idempotent and has to run for every register the operation acts on — a condition on one register leaves another "
+                 "one (of the other type) uncreated, and the operation is wired to one wire only", func="CircuitDAG.add",
+                 construct="CircuitDAG.add: registers ensured conditionally")
+
+
+def _ancs(n):
+    p_ = parent(n)
+    while p_ is not None:
+        yield p_
+        p_ = parent(p_)
+
+
 def run(ctx: Ctx) -> None:
+    rule_reg_ensure(ctx)
     from .c13 import rule_rewrite_order
     rule_rewrite_order(ctx)
     from ..rules import order as _order
@@ -315,6 +370,7 @@ def run(ctx: Ctx) -> None:
 
 
 KNOCKOUTS = [
+    Knockout("add-ensures-registers-only-for-highest-index", DAG, sub_nth("        for i in range(len(register)):\n            self._add_reg_if_absent(\n                register=register[i],\n                reg_type=reg_type[i],\n            )\n", "        if register[-1] >= len(self._registers[reg_type[-1]]):\n            for i in range(len(register)):\n                self._add_reg_if_absent(\n                    register=register[i],\n                    reg_type=reg_type[i],\n                )\n", 0), "reg.ensure", "conditionally"),
     Knockout("depth-entry-dropped", DAG, sub_once("            self._register_depth[reg_type].append(0)\n", ""), "own.registers", "without their depth entry"),
     Knockout("export-node-order", "graphiq/circuit/circuit_dag.py", sub_once("        for op in self.sequence():\n            if isinstance(op, ops.InputOutputOperationBase):", "        for op in [self.dag.nodes[k]['op'] for k in self.dag.nodes]:\n            if isinstance(op, ops.InputOutputOperationBase):"), "order.topological", "node-creation order"),
 
